@@ -105,4 +105,15 @@ theorem every_early_path_modelled :
       (events.any fun ev => (rclsOf ev).any fun c => c.fn == fn && pathSat (envOfRCls c) p) = true := by
   decide
 
+/-- a connection that came up but on which the OPEN could not be built or written is closed and the FSM goes to Idle — never
+to Active with the dead connection still in hand (the model: `dialOK` followed by `lostToIdle`; the next attempt starts after
+the idle-hold time) -/
+theorem open_failure_to_idle :
+    (∀ p ∈ pathsOf "sendOpenAndSetHoldTimer", p.guards.any (·.2) = true →
+      p.ret = ["idleState"] ∧ p.calls.getLast? = some "f.conn.Close") ∧
+    (∀ p ∈ pathsOf "sendOpenAndSetHoldTimer", p.guards.all (·.2 == false) = true → p.ret = ["openSentState"]) ∧
+    (∀ s : RSess, s.st = .connected → (rstep s .lostToIdle).map (·.st) = some .idle) := by
+  refine ⟨by decide, by decide, ?_⟩
+  intro s h; simp [rstep, h]
+
 end CoreBGP.Props.PathTieC11
